@@ -95,7 +95,27 @@ def _v1_key(case, code):
                 cause = "empty-ack-reply"
             return "panic/%s/%s/%s/%s" % (obs.get("site") or "?", msg, cause, agree)
         return "%s/hang/%s" % (eng, agree)
+    if code & 2 and (_v1_wedged(case) or (eng == "v1-acker" and obs.get("term") == "err" and obs.get("ctx"))):
+        return "%s/wedge/waits-for-an-ack-already-delivered/%s" % (eng, agree)
+    if code & 2 and eng == "v1-acker":
+        return "%s/acked-without-in-order-confirmation/%s" % (eng, agree)
     return "%s/%s/%s" % (eng, "monitor" if code & 2 else "differential", agree)
+
+
+def _v1_wedged(case):
+    """the acker node had to be cancelled while waiting in Destination.Ack although the destination had sent
+    at least as many acks as unfiltered messages were handed to the node"""
+    i, obs = case["input"], case["observed"]
+    if i.get("engine") != "v1-acker" or obs.get("term") != "err" or not obs.get("ctx"):
+        return False
+    sent = 0
+    for r in i.get("replies") or []:
+        if r.get("err"):
+            break
+        sent += len(r.get("acks") or [])
+    st = obs.get("status") or []
+    handed = sum(1 for m, s in zip(i.get("msgs") or [], st) if not m.get("filtered") and s != "open")
+    return sent >= handed
 
 
 def _components(case, code):
@@ -164,7 +184,9 @@ def describe(case, code):
             case["input"].get("engine"),
             "model and implementation disagree; " if code & 1 else "",
             "the node panicked or hung; " if code & 4 else "",
-            "the monitor rejects the observed behaviour" if code & 2 else "",
+            ("the node is wedged: it waits in Destination.Ack for an acknowledgment the destination has already "
+             "delivered (a graceful stop would never complete)" if _v1_wedged(case)
+             else "the monitor rejects the observed behaviour") if code & 2 else "",
             obs.get("term"), obs.get("detail") or "")
     what = []
     if code & 1:
